@@ -191,6 +191,8 @@ type Solver struct {
 	keep     bool
 	crossCheck bool
 	progress bool
+	instT    int
+	inflight map[string]chan struct{}
 }
 
 type solverStat struct {
@@ -233,13 +235,35 @@ func (s *Solver) solveAll(qs []*Query) {
 func (s *Solver) solveOne(q *Query) {
 	text := q.smt(false)
 	h := fmt.Sprintf("%x", sha256.Sum256([]byte(text)))[:24]
-	s.mu.Lock()
-	if r, ok := s.cache[h]; ok {
+	for {
+		s.mu.Lock()
+		if r, ok := s.cache[h]; ok {
+			s.mu.Unlock()
+			q.Status, q.Solver, q.Seconds, q.Output = r.status, r.solver+"(cached)", 0, r.output
+			return
+		}
+		if s.inflight == nil {
+			s.inflight = map[string]chan struct{}{}
+		}
+		if ch, busy := s.inflight[h]; busy {
+			s.mu.Unlock()
+			<-ch
+			continue
+		}
+		done := make(chan struct{})
+		s.inflight[h] = done
 		s.mu.Unlock()
-		q.Status, q.Solver, q.Seconds, q.Output = r.status, r.solver+"(cached)", 0, r.output
-		return
+		defer func() {
+			s.mu.Lock()
+			if _, ok := s.cache[h]; !ok {
+				s.cache[h] = &solveResult{status: q.Status, solver: q.Solver, seconds: q.Seconds, output: q.Output}
+			}
+			delete(s.inflight, h)
+			s.mu.Unlock()
+			close(done)
+		}()
+		break
 	}
-	s.mu.Unlock()
 	file := filepath.Join(s.dir, h+".smt2")
 	if s.keep {
 		text = "; " + q.Obl + " path=" + q.Trail + "\n" + text
@@ -274,6 +298,43 @@ func (s *Solver) solveOne(q *Query) {
 		}
 		if gr.status == "sat" {
 			q.GroundModel = gr.output
+		}
+	}
+	// stage 0b: ground instantiation of the quantified hypotheses at matching terms, goal skolemised
+	if !q.Canary {
+		if gi := q.buildGinst(3); gi != nil && (gi.instances > 0 || gi.skolems > 0) {
+			ifile := filepath.Join(s.dir, h+".i.smt2")
+			_ = os.WriteFile(ifile, []byte(gi.text), 0o644)
+			ctx, cancel := context.WithCancel(context.Background())
+			ch := make(chan solveResult, 2)
+			for _, sp := range solvers[:2] {
+				sp := sp
+				go func() { ch <- runSolver(ctx, sp, ifile, s.instT, s.seed) }()
+			}
+			var ir solveResult
+			for i := 0; i < 2; i++ {
+				x := <-ch
+				x.solver += "/ginst"
+				s.note(x)
+				if x.status == "unsat" {
+					ir = x
+					break
+				}
+			}
+			cancel()
+			if !s.keep {
+				os.Remove(ifile)
+			}
+			if ir.status == "unsat" {
+				q.Status, q.Solver, q.Seconds, q.Output = ir.status, ir.solver, ir.seconds, ""
+				s.mu.Lock()
+				s.cache[h] = &ir
+				s.mu.Unlock()
+				if s.progress {
+					fmt.Fprintf(os.Stderr, "  [%s %.1fs %s inst=%d] %s  path=%s\n", q.Status, q.Seconds, q.Solver, gi.instances, q.Obl, q.Trail)
+				}
+				return
+			}
 		}
 	}
 	// stage 1: the fast solver alone, short limit
